@@ -1827,3 +1827,58 @@ pub fn lane_closed_output(seed: u64) -> Vec<Scenario> {
         })
         .collect()
 }
+
+/// C14: a command that writes without pause (`yes`): there is always something to read, and a
+/// limit must cut it off all the same
+pub fn lane_flood(seed: u64) -> Vec<Scenario> {
+    let mut out = vec![];
+    let mut g = G::new(seed ^ 0xf100d);
+    for tier in [Tier::Lib, Tier::Cli] {
+        for limit in ["test", "document"] {
+            for fd in [1u8, 2] {
+                for pos in [0usize, 1] {
+                    let mut sim = base_sim(g.rng.next_u64());
+                    // small pipe and a slow parent: the flood below keeps scrut reading for
+                    // about 2 s of virtual time, four times the limit
+                    sim.swarm.pipe_capacity = 4096;
+                    sim.swarm.syscall_cost_ns = 200_000;
+                    sim.swarm.spawn_latency_max_ns = 1;
+                    let mut tests = vec![];
+                    for k in 0..3 {
+                        let mut t = g.test(&Plan::new(Fate::Pass), &mut sim.programs);
+                        if k == pos {
+                            let unit: Vec<u8> = format!("y{}\n", &t.nonce[..6]).repeat(64).into_bytes();
+                            sim.programs.insert(
+                                t.nonce.clone(),
+                                vec![Op::OutRepeat { fd, unit: Bytes(unit), times: 40_000 }, Op::Status { code: 0 }],
+                            );
+                            t.expectations = vec![];
+                            t.expect_match = false;
+                            if limit == "test" {
+                                t.cfg.timeout_ns = Some(500 * MS);
+                            }
+                        }
+                        tests.push(t);
+                    }
+                    let mut d = doc("flood.md", Format::Md, tests);
+                    if limit == "document" {
+                        d.total_timeout_ns = Some(500 * MS);
+                    }
+                    let mut sc = Scenario {
+                        lane: format!("flood/{:?}/{}-limit/fd{}/pos{}", tier, limit, fd, pos),
+                        tier,
+                        script_mode: false,
+                        docs: vec![d],
+                        cli: Cli::default(),
+                        sim,
+                        pretty: false,
+                        check: vec!["C14".into()],
+                    };
+                    fill_expectations(&mut sc, &mut g);
+                    out.push(sc);
+                }
+            }
+        }
+    }
+    out
+}
